@@ -586,14 +586,13 @@ ElemNumber::getCountString(
             const CountType     theNumber =
                 ctable.countNode(executionContext, *this, sourceNode);
 
-            if (theNumber != 0)
-            {
-                formatNumberList(
-                    executionContext,
-                    &theNumber,
-                    1,
-                    theResult);
-            }
+            // XSLT 7.7: level="any" constructs a list of length one
+            // containing the count, also when no node is counted.
+            formatNumberList(
+                executionContext,
+                &theNumber,
+                1,
+                theResult);
         }
         else
         {
